@@ -19,7 +19,8 @@ contract(f"{B}::BaseSampler.__init__",
          params={"batch_size": "int", "random_state": "opt[int]", "max_deduplication_passes": "int"},
          ensures=["self.batch_size == batch_size", "self.max_deduplication_passes == max_deduplication_passes",
                   "self.random_state == random_state"],
-         modifies=["self.*"], props=["C03", "C16"])
+         modifies=["self.batch_size", "self.max_deduplication_passes", "self._BaseSeedable__random_state",
+                   "self._BaseSeedable__random_generator"], props=["C03", "C16"])
 
 klass("RandomUniformSampler", fields={"batch_size": "pos", "max_deduplication_passes": "nat"})
 contract(f"{RU}::RandomUniformSampler.sample_batch", params=_PARAMS, returns="arr2[real]",
